@@ -106,7 +106,9 @@ func checkFrame(s *vxdrive.Session, tc model.TermConfig, m *model.Mirror, cw cur
 	return model.CheckDisplay(s.Term, tc, m, cw, what)
 }
 
-func run(c Case) string {
+var run = harness.Confirm(runOnce, 2)
+
+func runOnce(c Case) string {
 	s, err := vxdrive.Start(c.Cols, c.Rows, c.Caps, c.Opts)
 	if err != nil {
 		return "vaxis.New failed: " + err.Error()
